@@ -7,6 +7,7 @@ import (
 	"testing"
 
 	hydrapb "github.com/hydraide/hydraide/sdk/go/hydraidego/v3/hydraidepbgo"
+	"github.com/vmihailenco/msgpack/v5"
 	"google.golang.org/protobuf/proto"
 	"verifharness/kit"
 )
@@ -186,7 +187,21 @@ func c08ask(rg *rigT, sw string, q c08query, g *hydrapb.FilterGroup) (string, er
 			sort.Strings(l)
 			labels = "{" + strings.Join(l, ",") + "}"
 		}
-		out = append(out, x.Treasure.Key+labels)
+		body := ""
+		if len(x.Treasure.BytesVal) > 2 {
+			var m map[string]any
+			if msgpack.Unmarshal(x.Treasure.BytesVal[2:], &m) == nil {
+				ks := make([]string, 0, len(m))
+				for k, v := range m {
+					ks = append(ks, fmt.Sprintf("%s=%v", k, v))
+				}
+				sort.Strings(ks)
+				body = "<" + strings.Join(ks, ";") + ">"
+			}
+		} else if x.Treasure.Int32Val != nil {
+			body = fmt.Sprintf("<i32:%d>", *x.Treasure.Int32Val)
+		}
+		out = append(out, x.Treasure.Key+body+labels)
 	}
 	return strings.Join(out, " "), nil
 }
@@ -228,6 +243,10 @@ func TestC08(t *testing.T) {
 			rg.gw.PatchTreasures(bg, &hydrapb.PatchTreasuresRequest{IslandID: 1, SwampName: sw, Patches: []*hydrapb.TreasurePatch{{Key: "r2", Ops: []*hydrapb.PatchOp{
 				{Op: hydrapb.PatchOp_SET, Path: "s", Value: mp("x")}, {Op: hydrapb.PatchOp_DELETE, Path: "n"}}}}})
 		}},
+		{"Patch(r4: SET m.k=w, b=false; s and n unchanged)", func(rg *rigT, sw string) {
+			rg.gw.PatchTreasures(bg, &hydrapb.PatchTreasuresRequest{IslandID: 1, SwampName: sw, Patches: []*hydrapb.TreasurePatch{{Key: "r4", Ops: []*hydrapb.PatchOp{
+				{Op: hydrapb.PatchOp_SET, Path: "m.k", Value: mp("w")}, {Op: hydrapb.PatchOp_SET, Path: "b", Value: mp(false)}}}}})
+		}},
 		{"Set(r8: body replaced by an int32 value)", func(rg *rigT, sw string) {
 			rg.gw.Set(bg, &hydrapb.SetRequest{Swamps: []*hydrapb.SwampRequest{{IslandID: 1, SwampName: sw, CreateIfNotExist: true, Overwrite: true, KeyValues: []*hydrapb.KeyValuePair{{Key: "r8", Int32Val: p(int32(7))}}}}})
 		}},
@@ -258,7 +277,7 @@ func TestC08(t *testing.T) {
 		}
 	}
 	r.Extra["filters"], r.Extra["mutations"], r.Extra["queries_per_item"] = fn, mn, len(queries)
-	r.Rule = fmt.Sprintf("swamp of 8 records with MessagePack bodies (s: strings and nil; n: the value 5 as int8/int64/uint8/float64, 5.5, the string \"5\", int32 7; b: bool or missing; t: string arrays incl. empty; m.k: string or int8; one empty body; distinct created/updated times, two records without expiry) on the in-process server; %d filter trees (single Equal legs over every compare-value kind incl. float-vs-integer, bool, STRING_IN/INT32_IN/INT64_IN, nested path m.k, wildcard t[*], index t[0], t#len and t.#len; an indexable leg AND residual legs with labels on both; OR unions with labels; AND with an OR sub-group) x %d mutations (none; Set changing the indexed fields; Delete; Set of a new record; Patch SET+DELETE of indexed fields; Set replacing the body by a typed value) applied before the field index is built or after it was built by a first query (thorough: followed by every second mutation) x %d paging/ordering requests (4 index types x ASC/DESC x From/Limit combinations, MaxResults, time windows, IncludedKeys/ExcludeKeys). Each request is answered twice by the real GetByIndexStream: as given, and wrapped as OR{SubGroups:[filter]} which the planner never accelerates. Oracle: same records, same order (records with equal sort key may swap), same match labels. Non-trivial = requests whose scan answer is non-empty", len(filters), len(muts), len(queries))
+	r.Rule = fmt.Sprintf("swamp of 8 records with MessagePack bodies (s: strings and nil; n: the value 5 as int8/int64/uint8/float64, 5.5, the string \"5\", int32 7; b: bool or missing; t: string arrays incl. empty; m.k: string or int8; one empty body; distinct created/updated times, two records without expiry) on the in-process server; %d filter trees (single Equal legs over every compare-value kind incl. float-vs-integer, bool, STRING_IN/INT32_IN/INT64_IN, nested path m.k, wildcard t[*], index t[0], t#len and t.#len; an indexable leg AND residual legs with labels on both; OR unions with labels; AND with an OR sub-group) x %d mutations (none; Set changing the indexed fields; Delete; Set of a new record; Patch SET+DELETE of indexed fields; Set replacing the body by a typed value) applied before the field index is built or after it was built by a first query (thorough: followed by every second mutation) x %d paging/ordering requests (4 index types x ASC/DESC x From/Limit combinations, MaxResults, time windows, IncludedKeys/ExcludeKeys). Each request is answered twice by the real GetByIndexStream: as given, and wrapped as OR{SubGroups:[filter]} which the planner never accelerates. Oracle: same records with the same content (every streamed body is compared field by field), same order (records with equal sort key may swap), same match labels. Non-trivial = requests whose scan answer is non-empty", len(filters), len(muts), len(queries))
 	r.Assumptions = []string{"the wrapped filter selects the same records by the filter semantics (an OR over one sub-group); the scan route is the reference", "single client"}
 	r.Parallel(16, "TestC08", func() {
 		type res struct {
@@ -333,7 +352,7 @@ func TestC08(t *testing.T) {
 				strip := func(s string) string {
 					var ks []string
 					for _, w := range strings.Fields(s) {
-						if j := strings.Index(w, "{"); j >= 0 {
+						if j := strings.IndexAny(w, "{<"); j >= 0 {
 							w = w[:j]
 						}
 						ks = append(ks, w)
@@ -342,6 +361,19 @@ func TestC08(t *testing.T) {
 				}
 				if strip(p[1]) == strip(p[2]) {
 					kind = "labels-differ"
+					dropLabels := func(s string) string {
+						var ks []string
+						for _, w := range strings.Fields(s) {
+							if j := strings.Index(w, "{"); j >= 0 {
+								w = w[:j]
+							}
+							ks = append(ks, w)
+						}
+						return strings.Join(ks, " ")
+					}
+					if dropLabels(p[1]) != dropLabels(p[2]) {
+						kind = "record-content-differs"
+					}
 				} else if strings.Contains(q, "from=0 limit=0") {
 					kind = "records-differ-unpaged"
 				} else {
